@@ -513,18 +513,17 @@ static void for_each_common(size_t in_n0, size_t in_n1, size_t in_n2, size_t in_
   g_calls = 0; g_stopped = 0;
   ldb_version_for_each_overlapping(&g_ver, &g_uks, &g_iks, &g_cb_arg, fe_cb);
 }
-/* level 0 in depth: <= 3 overlapping files, sorted by the real ldb_vector_sort; then one level-1 candidate */
+/* level 0 in depth: <= 3 overlapping files, sorted by the real ldb_vector_sort; deeper levels empty */
 void h_for_each_l0(void) {
-  IN_SIZE(in_n0); IN_SIZE(in_n1);
-  ASSUME(in_n1 <= 1);
-  for_each_common(in_n0, in_n1, 0, 0, 0, 0, 0);
+  IN_SIZE(in_n0);
+  for_each_common(in_n0, 0, 0, 0, 0, 0, 0);
   CANARY();
 }
-/* all levels: <= 1 file in level 0, <= 2 files in each level 1..6 */
+/* deeper levels: <= 1 file in level 0, <= 2 files in each of the levels 1, 2 and 6, levels 3..5 empty */
 void h_for_each_levels(void) {
-  IN_SIZE(in_n0); IN_SIZE(in_n1); IN_SIZE(in_n2); IN_SIZE(in_n3); IN_SIZE(in_n4); IN_SIZE(in_n5); IN_SIZE(in_n6);
+  IN_SIZE(in_n0); IN_SIZE(in_n1); IN_SIZE(in_n2); IN_SIZE(in_n6);
   ASSUME(in_n0 <= 1);
-  for_each_common(in_n0, in_n1, in_n2, in_n3, in_n4, in_n5, in_n6);
+  for_each_common(in_n0, in_n1, in_n2, 0, 0, 0, in_n6);
   CANARY();
 }
 
